@@ -101,7 +101,8 @@ class DiagnosticPlot:
         """
 
         # Let's create an array of colors for *every* (sigh) point ...
-        symb_clrs = np.array(['#000000'] * len(self._chunk.data))
+        # (the dtype is set explicitly, such that this also works for a chunk left without any hit)
+        symb_clrs = np.array(['#000000'] * len(self._chunk.data), dtype=str)
 
         # If warranted, adjust the colors as a function of the ceilometer id.
         if show_ceilos:
@@ -110,7 +111,7 @@ class DiagnosticPlot:
             ceilo_clrs = plt.rcParams['axes.prop_cycle'].by_key()['color']
             # Assign them to each hit
             symb_clrs = np.array([ceilo_clrs[self._chunk.ceilos.index(item) % len(ceilo_clrs)]
-                         for item in self._chunk.data['ceilo']])
+                         for item in self._chunk.data['ceilo']], dtype=str)
 
         # What are the VV hits ?
         is_vv = np.array(self._chunk.data['type'] == -1)
@@ -152,7 +153,7 @@ class DiagnosticPlot:
         is_vv = np.array(self._chunk.data['type'] == -1)
 
         # I want to draw them with no facecolor ... so create an array of "facecolors"
-        fcs = np.array(['#000000'] * len(is_vv))
+        fcs = np.array(['#000000'] * len(is_vv), dtype=str)
         fcs[is_vv] = 'none'
 
         # Add a legend for these, if they exist ...
